@@ -2,6 +2,7 @@ import DendroModel.Model.C06
 import DendroModel.Theory.C06Proto
 import DendroModel.Theory.C06Argmax
 import DendroModel.Theory.C06Sort
+import DendroModel.Gen.C06Kernels
 import Mathlib.Tactic.Ring
 /-! C06 — property theorems about the `TreeArray` / `SplitDistribution` / SumTrees model of
 `Model/C06.lean` (the definitions the driver `drv_c06` executes).
@@ -1617,6 +1618,77 @@ theorem step_ghost {ρ : Option Bool} {fl : Flags} {regs : List TA} {g : List (L
         simp only [ghostStep, htx, hty]
         exact f2_snoc hr (by simpa using r2)
 
+theorem readLoop_same (target i : Nat) (rest : List (Nat × TRec)) : ∀ (f : List TRec) (k : Nat),
+    readLoop target (f.map (fun t => (i, t)) ++ rest) (some i) k = f.drop (target - k) ++ readLoop target rest (some i) (k + f.length)
+  | [], k => by simp
+  | t :: f, k => by
+    simp only [List.map_cons, List.cons_append, readLoop, bne_self_eq_false, Bool.false_eq_true, if_false]
+    rw [readLoop_same target i rest f (k + 1)]
+    by_cases h : k ≥ target
+    · have e1 : target - k = 0 := by omega
+      have e2 : target - (k + 1) = 0 := by omega
+      rw [show k + 1 + f.length = k + (f.length + 1) by omega]
+      simp [h, e1, e2]
+    · have e1 : target - k = (target - (k + 1)) + 1 := by omega
+      rw [show k + 1 + f.length = k + (f.length + 1) by omega]
+      simp only [h, if_false, e1, List.drop_succ_cons, List.length_cons]
+
+theorem readLoop_enter (target i : Nat) (rest : List (Nat × TRec)) (t : TRec) (f : List TRec) (src : Option Nat) (off : Nat)
+    (h : src ≠ some i) :
+    readLoop target ((t :: f).map (fun t => (i, t)) ++ rest) src off =
+      (t :: f).drop target ++ readLoop target rest (some i) (t :: f).length := by
+  have hb : (src != some i) = true := by simpa using h
+  simp only [List.map_cons, List.cons_append, readLoop, hb, if_true]
+  rw [readLoop_same target i rest f 1]
+  cases target with
+  | zero =>
+    rw [show 1 + f.length = f.length + 1 by omega]
+    simp
+  | succ n =>
+    rw [show 1 + f.length = f.length + 1 by omega]
+    simp
+
+theorem readLoop_files (target : Nat) : ∀ (files : List (List TRec)) (n : Nat) (src : Option Nat) (off : Nat),
+    (src = none ∨ ∃ j, j < n ∧ src = some j) → readLoop target (tagFrom n files) src off = files.flatMap (·.drop target)
+  | [], _, _, _, _ => by simp [tagFrom, readLoop]
+  | [] :: fs, n, src, off, h => by
+    simp only [tagFrom, List.map_nil, List.nil_append, List.flatMap_cons, List.drop_nil]
+    apply readLoop_files target fs (n + 1) src off
+    rcases h with h | ⟨j, hj, h⟩
+    · exact Or.inl h
+    · exact Or.inr ⟨j, by omega, h⟩
+  | (t :: f) :: fs, n, src, off, h => by
+    have hne : src ≠ some n := by
+      rcases h with h | ⟨j, hj, h⟩
+      · rw [h]; simp
+      · rw [h]; intro e; cases e; omega
+    simp only [tagFrom, List.flatMap_cons]
+    rw [readLoop_enter target n _ t f src off hne, readLoop_files target fs (n + 1) (some n) _ (Or.inr ⟨n, by omega, rfl⟩)]
+
+theorem isEmpty_false_of_ne {α : Type} {l : List α} (h : l ≠ []) : l.isEmpty = false ∧ (l.length == 0) = false ∧ 0 < l.length := by
+  cases l with
+  | nil => exact absurd rfl h
+  | cons x r => simp
+
+theorem collateX_of_buildParts (f : Flags) : ∀ (parts : List (Option Bool × List TRec)) (ws : List TA) (m : TA),
+    buildParts f parts = .ok ws → collateX m (parts.map fun p => addAll (TA.new p.1 f) p.2) = collate m ws
+  | [], ws, m, h => by
+    simp only [buildParts, Except.ok.injEq] at h; subst h; rfl
+  | p :: ps, ws, m, h => by
+    simp only [buildParts] at h
+    cases h1 : addAll (TA.new p.1 f) p.2 with
+    | error e => simp [h1] at h
+    | ok w =>
+      cases h2 : buildParts f ps with
+      | error e => simp [h1, h2] at h
+      | ok ws' =>
+        simp only [h1, h2, Except.ok.injEq] at h
+        subst h
+        simp only [List.map_cons, h1, collateX, collate]
+        cases hu : update m w with
+        | error e => rfl
+        | ok m1 => exact collateX_of_buildParts f ps ws' m1 h2
+
 theorem run_ghost {ρ : Option Bool} {fl : Flags} (ops : List Op) : ∀ (regs : List TA) (g : List (List TRec)),
     List.Forall₂ (TARep ρ fl) regs g → (∀ op ∈ ops, OpOK ρ fl op) →
     List.Forall₂ (TARep ρ fl) (run regs ops).1 (ops.foldl ghostStep g) ∧
@@ -1774,13 +1846,15 @@ theorem mcc_topologies_of_obs {a b : TA} (h : ObsEq a.sd b.sd) (hr : a.rows.Perm
   rw [hfun]
   exact hr.map _
 
-/-- **consensus_of_obs_partial** (clause c): the splits `consensus_tree(min_freq)` tries to add are the counted splits
-with frequency ≥ `min_freq`, and this *set* is a function of the observable.
-PARTIAL: proved for the set of candidate splits, not for their order in the list (decreasing `(frequency, mask)`,
-produced by the insertion sort `insDesc`); for thresholds above one half the candidates are pairwise compatible
-and the order does not influence the tree built from them (that step is C05's subject). -/
-theorem consensus_of_obs_partial {a b : SD} (h : ObsEq a b) (θ : Q) (s : Nat) :
-    s ∈ consensusOrder a θ ↔ s ∈ consensusOrder b θ := by
+/-- **consensus_candidates_spec** (clause c): the splits `consensus_tree(min_freq)` tries to add are *exactly* the counted splits
+with frequency ≥ `min_freq` — nothing dropped, nothing invented by the sort — and hence the same set for two distributions
+with the same observable.  (Their *order*, decreasing `(frequency, mask)`, is a function of the observable too:
+`consensus_of_obs`.) -/
+theorem consensus_candidates_spec (sd : SD) (θ : Q) (s : Nat) :
+    (s ∈ consensusOrder sd θ ↔ hasKey s sd.counts = true ∧ Q.le θ (sd.freq s) = true) ∧
+    ∀ b : SD, ObsEq sd b → (s ∈ consensusOrder sd θ ↔ s ∈ consensusOrder b θ) := by
+  refine ⟨mem_consensusOrder sd θ s, ?_⟩
+  intro b h
   rw [mem_consensusOrder, mem_consensusOrder, freq_of_obs h s, (h.2.2.2.2 s).1]
 
 /-- **async_sentinel_every_file_once** (clause d, queue level): under the end-marker protocol (blocking `get`, one marker
@@ -2008,6 +2082,257 @@ theorem summaries_of_histories (ρ : Option Bool) (fl : Flags) (ops1 ops2 : List
   obtain ⟨_, _, h3, h4, h5⟩ := summaries_of_obs hobs s
   exact ⟨h4, h5, h3⟩
 
+/-! ### tie A: the decision kernels regenerated from the source (`Gen/C06Kernels.lean`) are the model's -/
+
+/-- the model's array seen through the generated record -/
+def toK (a : TA) : C06Kernels.KTA (List Nat) (List (Option Frac)) Nat Q SD :=
+  ⟨a.rooting, a.flags.ignoreLens, a.flags.ignoreAges, a.flags.useWeights, a.splits, a.elens, a.leafsets, a.weights, a.sd⟩
+
+def toExc : Err → Option C06Kernels.Exc
+  | .mixedRooting => some .mixedRooting | .incRooting => some .incRooting | .incLens => some .incLens
+  | .incAges => some .incAges | .incWeights => some .incWeights | _ => none
+
+/-- outcome of a model operation in the vocabulary of the generated kernels -/
+def outK : Except Err TA → Option (Except C06Kernels.Exc (C06Kernels.KTA (List Nat) (List (Option Frac)) Nat Q SD))
+  | .ok a => some (.ok (toK a))
+  | .error e => (toExc e).map .error
+
+theorem update_bridge (a b : TA) : outK (update a b) = some (C06Kernels.update SD.merge (toK a) (toK b)) := by
+  simp only [update, C06Kernels.update, toK]
+  by_cases hb : b.splits = []
+  · simp [outK, toK, hb]
+  · obtain ⟨b1, b2, _⟩ := isEmpty_false_of_ne hb
+    by_cases ha : a.splits = []
+    · simp [outK, toK, TA.absorb, ha, b1, b2]
+    · obtain ⟨a1, _, a3⟩ := isEmpty_false_of_ne ha
+      by_cases h1 : a.rooting = b.rooting <;> by_cases h2 : a.flags.ignoreLens = b.flags.ignoreLens <;>
+        by_cases h3 : a.flags.ignoreAges = b.flags.ignoreAges <;> by_cases h4 : a.flags.useWeights = b.flags.useWeights <;>
+        simp [outK, toK, toExc, TA.absorb, a1, a3, b1, b2, h1, h2, h3, h4]
+
+
+theorem validate_bridge (a : TA) (tr : Option Bool) :
+    C06Kernels.validateRooting (toK a) tr =
+      (match validateRooting a.rooting tr with
+       | none => .error .mixedRooting
+       | some r => .ok (toK { a with rooting := r })) := by
+  obtain ⟨ro, fl, sp, el, ls, ws, sd⟩ := a
+  simp only [C06Kernels.validateRooting, validateRooting, toK]
+  cases ro with
+  | none => simp
+  | some r =>
+    by_cases h : tr = some r
+    · simp [h]
+    · have h' : ¬ (some r = tr) := fun e => h e.symm
+      simp [h, h']
+
+theorem weight_bridge (u : Bool) (t : TRec) :
+    weightOf u t = C06Kernels.weightToUse Q.one (t.weight.map Q.ofFrac) u := by
+  simp only [weightOf, C06Kernels.weightToUse]
+  cases t.weight <;> cases u <;> simp
+
+/-- the accession block of `add_tree` (append, or insert at a Python index, into the four lists) is what `addTree` does to them -/
+theorem accession_bridge (a a' : TA) (t : TRec) (idx : Option Int) (h : addTree a t idx = .ok a') :
+    ∃ sp el, toK a' = C06Kernels.accession (fun i x l => pyInsert i x l) (toK { a with rooting := a'.rooting, sd := a'.sd }) idx
+      sp el t.leafset (weightOf a.flags.useWeights t) := by
+  simp only [addTree] at h
+  split at h
+  · cases h
+  · split at h
+    · cases h
+    · split at h <;> (cases h; exact ⟨_, _, rfl⟩)
+
+theorem qualifies_bridge (leafset s : Nat) :
+    qualifies leafset s = C06Kernels.qualifies (fun x y => PyBits.is_trivial_bitmask (x : Int) (y : Int))
+      C06Kernels.includeExternalDefault s leafset := by
+  simp [qualifies, C06Kernels.qualifies, C06Kernels.includeExternalDefault]
+
+/-- the scan of `calculate_log_product_of_split_supports` replaces its best-so-far exactly when the generated test says so -/
+theorem argmax_bridge (x : Q) (r : List Q) (i : Nat) (best : Option (Nat × Q)) :
+    argmaxFrom (x :: r) i best =
+      argmaxFrom r (i + 1) (if C06Kernels.replacesMax Q.lt (best.map (·.2)) x then some (i, x) else best) := by
+  cases best with
+  | none => simp [argmaxFrom, C06Kernels.replacesMax]
+  | some b =>
+    obtain ⟨j, m⟩ := b
+    simp [argmaxFrom, C06Kernels.replacesMax]
+
+/-- one pass of the model's reading loop is the generated loop body (of both reading loops) -/
+theorem readStep_bridge (target : Nat) (src : Option Nat) (off i : Nat) :
+    C06Kernels.readStep target src off i =
+      (some i, (if src != some i then 0 else off) + 1, if (if src != some i then 0 else off) ≥ target then 1 else 0) ∧
+    C06Kernels.readStepLogged target src off i = C06Kernels.readStep target src off i := by
+  simp only [C06Kernels.readStep, C06Kernels.readStepLogged]
+  by_cases h : src = some i <;> by_cases h2 : off ≥ target <;> by_cases h3 : 0 ≥ target <;> simp [h, h2, h3]
+
+theorem readLoop_cons (target : Nat) (i : Nat) (t : TRec) (r : List (Nat × TRec)) (src : Option Nat) (off : Nat) :
+    readLoop target ((i, t) :: r) src off =
+      (let st := C06Kernels.readStep target src off i
+       List.replicate st.2.2 t ++ readLoop target r st.1 st.2.1) := by
+  rw [(readStep_bridge target src off i).1]
+  simp only [readLoop]
+  split <;> split <;> simp_all
+
+/-- the worker protocol the theorems are about is the one the source configures: blocking `get`, stop at `None`, one marker
+    per worker behind the files, one worker and one awaited result per process -/
+theorem proto_bridge (nw nfiles : Nat) :
+    C06Kernels.workerGetBlocks = true ∧ C06Kernels.workerStopsAtNone = true ∧
+    C06Kernels.workerPostsException = true ∧ C06Kernels.workerPostsArray = true ∧
+    C06Kernels.parentReraises = true ∧ C06Kernels.parentMergesWithUpdate = true ∧
+    C06Kernels.extendIsUpdate = true ∧ C06Kernels.iaddIsExtend = true ∧
+    (initP C06Kernels.workerGetBlocks nw nfiles).inflight =
+      (C06Kernels.initialQueue nw nfiles).map (fun o => match o with | some k => Item.file k | none => Item.stop) ∧
+    (initP C06Kernels.workerGetBlocks nw nfiles).ws.length = C06Kernels.workersStarted nw ∧
+    C06Kernels.resultsAwaited nw = (initP C06Kernels.workerGetBlocks nw nfiles).ws.length := by
+  refine ⟨rfl, rfl, rfl, rfl, rfl, rfl, rfl, rfl, ?_, ?_, ?_⟩
+  · simp [initP, C06Kernels.initialQueue, C06Kernels.workerGetBlocks, C06Kernels.markersPosted, List.map_map, Function.comp_def]
+  · simp [initP, C06Kernels.workersStarted]
+  · simp [initP, C06Kernels.resultsAwaited]
+
+theorem runsSerial_bridge (n : Nat) : C06Kernels.runsSerial (some (n : Int)) = decide (n ≤ 1) ∧ C06Kernels.runsSerial none = true := by
+  constructor
+  · simp [C06Kernels.runsSerial]
+  · rfl
+
+/-- **burnin_per_source**: the reading loop with its running offset (reset when the source number changes) adds, for every
+source of the call, all trees but its first `burnin` ones, in order — whether the sources are read in one call (the serial
+run) or one call per source (what each worker does with each file it takes). -/
+theorem burnin_per_source (burnin : Nat) (files : List (List TRec)) :
+    readFiles burnin files = files.flatMap (·.drop burnin) ∧
+    (workerFiles burnin files).flatten = readFiles burnin files ∧
+    workerFiles burnin files = files.map (·.drop burnin) := by
+  have h1 : ∀ fs, readFiles burnin fs = fs.flatMap (·.drop burnin) := fun fs =>
+    readLoop_files burnin fs 0 none 0 (Or.inl rfl)
+  have h3 : workerFiles burnin files = files.map (·.drop burnin) := by
+    simp only [workerFiles]
+    apply List.map_congr_left
+    intro f _
+    rw [h1]; simp
+  refine ⟨h1 files, ?_, h3⟩
+  rw [h3, h1, List.flatMap_def]
+
+
+/-! ### the worker protocol when a read can fail; the parent's collation of what the workers post -/
+
+/-- **async_failures_never_hang** (clause d, queue level, failing reads included): whatever files fail to read in whatever
+worker state (`fails` arbitrary), for every number of workers and files and every schedule of deliveries and worker moves, the
+end-marker protocol ends with *every* worker stopped — so the parent's collation loop gets its one result per worker (array
+or exception) and never waits for ever.  (A failing worker leaves its own marker on the queue; the invariant is that the
+markers never run out.) -/
+theorem async_failures_never_hang (fails : List Nat → Nat → Bool) (nw nfiles : Nat) (choices : List Nat) :
+    (finalPF fails nw nfiles choices).ws.length = nw ∧
+    ∀ w ∈ (finalPF fails nw nfiles choices).ws, w.phase = Phase.done := by
+  have hinv := run_invF fails (QInv nw) (fun s a h ha => qinv_apply fails s a h ha) (fuelOf nw nfiles) choices _ (qinv_init nw nfiles)
+  have hterm := run_terminalF fails (fuelOf nw nfiles) choices _ (mu_init true nw nfiles)
+  exact ⟨hinv.len, qinv_terminal hinv hterm⟩
+
+/-- **async_no_failing_read_same_run**: when no read can fail, the failing-read protocol is, schedule by schedule, the plain
+end-marker protocol (so `async_sentinel_every_file_once` speaks about it) -/
+theorem async_no_failing_read_same_run (fails : List Nat → Nat → Bool) (hf : ∀ t k, fails t k = false) (nw nfiles : Nat)
+    (choices : List Nat) : finalPF fails nw nfiles choices = finalP true nw nfiles choices :=
+  runProtoF_of_never fails hf _ _ _
+
+/-- **collation_reraises_first_exception**: the parent's loop over the posted results — arrays merged so far, then an
+exception: the run raises that exception; and any posted exception, wherever it arrives, means the run ends in an error
+(that one, or an earlier rejection), never in a summary. -/
+theorem collation_reraises_first_exception (m : TA) :
+    (∀ (oks : List TA) (m' : TA) (e : Err) (rest : List (Except Err TA)), collate m oks = .ok m' →
+      collateX m (oks.map .ok ++ .error e :: rest) = .error e) ∧
+    (∀ rs : List (Except Err TA), (∃ e, Except.error e ∈ rs) → ∃ e, collateX m rs = .error e) := by
+  constructor
+  · intro oks
+    induction oks generalizing m with
+    | nil => intro m' e rest _; rfl
+    | cons w ws ih =>
+      intro m' e rest h
+      simp only [collate] at h
+      simp only [List.map_cons, List.cons_append, collateX]
+      cases hu : update m w with
+      | error e' => simp [hu] at h
+      | ok m1 => simp only [hu] at h ⊢; exact ih m1 m' e rest h
+  · intro rs
+    induction rs generalizing m with
+    | nil => rintro ⟨e, he⟩; simp at he
+    | cons r rs ih =>
+      rintro ⟨e, he⟩
+      cases r with
+      | error e' => exact ⟨e', rfl⟩
+      | ok w =>
+        simp only [collateX]
+        cases hu : update m w with
+        | error e' => exact ⟨e', rfl⟩
+        | ok m1 =>
+          simp only [List.mem_cons] at he
+          rcases he with he | he
+          · cases he
+          · exact ih m1 ⟨e, he⟩
+
+/-- **sumtrees_failing_read_reported**: if, under some schedule, the array some worker would post is an exception (a read
+failed in it), then — every worker stops (`async_failures_never_hang`), the parent takes one result per worker in any
+arrival order — the parallel run ends in an error: it neither hangs nor returns a summary. -/
+theorem sumtrees_failing_read_reported (r : Option Bool) (fl : Flags) (nw : Nat) (choices arrival : List Nat)
+    (files : List (List TRec)) (harr : arrival.Perm (List.range nw)) (i : Nat) (hi : i < nw) (e : Err)
+    (hfail : postedBy r fl (finalPF (failsOf r fl files) nw files.length choices) files i = .error e) :
+    ∃ e', runAsyncF r fl nw choices arrival files = some (.error e') := by
+  obtain ⟨_, hdone⟩ := async_failures_never_hang (failsOf r fl files) nw files.length choices
+  have hall : (finalPF (failsOf r fl files) nw files.length choices).ws.all (fun w => w.phase == Phase.done) = true := by
+    simp only [List.all_eq_true, beq_iff_eq]; exact hdone
+  have hmem : i ∈ arrival := harr.mem_iff.2 (List.mem_range.2 hi)
+  obtain ⟨e', he'⟩ := (collation_reraises_first_exception (TA.new r fl)).2
+    (arrival.map fun i => postedBy r fl (finalPF (failsOf r fl files) nw files.length choices) files i)
+    ⟨e, List.mem_map.2 ⟨i, hmem, hfail⟩⟩
+  exact ⟨e', by simp only [runAsyncF, hall, if_true, he']⟩
+
+/-- **sumtrees_burnin_schedule_independent** (clause d, the whole pipeline): with a burn-in that every worker applies to
+every file it reads and the serial run applies per source within its one reading call, with the failing-read protocol, the
+parent's re-raising collation, any number of workers ≥ 1 (also more workers than files, also no file at all), every schedule
+of deliveries and worker moves and every arrival order: for trees of one rooting state the parallel run returns, never
+fails, and yields the observable and the rows (up to order) of the serial run. -/
+theorem sumtrees_burnin_schedule_independent (ρ : Option Bool) (fl : Flags) (r : Option Bool) (burnin nw : Nat)
+    (choices arrival : List Nat) (files : List (List TRec)) (hnw : 0 < nw) (harr : arrival.Perm (List.range nw))
+    (htrees : ∀ f ∈ files, ∀ t ∈ f, t.rooted = ρ) (hr : r = none ∨ r = ρ) :
+    ∃ m s, runAsyncFB burnin r fl nw choices arrival files = some (.ok m) ∧ runSerialB burnin r fl files = .ok s ∧
+      ObsEq m.sd s.sd ∧ m.rows.Perm s.rows ∧ Aligned m := by
+  obtain ⟨hb1, hb2, hb3⟩ := burnin_per_source burnin files
+  have htrees' : ∀ f ∈ workerFiles burnin files, ∀ t ∈ f, t.rooted = ρ := by
+    rw [hb3]
+    intro f hf t ht
+    obtain ⟨g, hg, rfl⟩ := List.mem_map.1 hf
+    exact htrees g hg t (List.mem_of_mem_drop ht)
+  obtain ⟨m, s, hm, hs, hobs, hrows, hal⟩ :=
+    sumtrees_async_schedule_independent ρ fl r nw choices arrival (workerFiles burnin files) hnw harr htrees' hr
+  refine ⟨m, s, ?_, ?_, hobs, hrows, hal⟩
+  · -- no read can fail, so the protocol run is the plain one and every worker posts an array
+    have hnf : ∀ t k, failsOf r fl (workerFiles burnin files) t k = false := by
+      intro t k
+      have hall : ∀ x ∈ (t ++ [k]).flatMap (fun j => (workerFiles burnin files)[j]?.getD []), x.rooted = ρ := by
+        intro x hx
+        obtain ⟨j, _, hxj⟩ := List.mem_flatMap.1 hx
+        cases hj : (workerFiles burnin files)[j]? with
+        | none => simp [hj] at hxj
+        | some f =>
+          simp only [hj, Option.getD_some] at hxj
+          exact htrees' f (List.mem_of_getElem? hj) x hxj
+      obtain ⟨a', ha', _⟩ := rep_addAll _ (rep_new ρ fl r hr) hall
+      simp only [failsOf, ha']
+    simp only [runAsyncFB, runAsyncF]
+    rw [async_no_failing_read_same_run _ hnf]
+    simp only [runAsync] at hm
+    split at hm
+    · rename_i hdone
+      simp only [hdone, if_true]
+      cases hbp : buildParts fl (arrival.map fun i => (r, treesOf (finalP true nw (workerFiles burnin files).length choices) (workerFiles burnin files) i)) with
+      | error e => simp [hbp] at hm
+      | ok ws =>
+        simp only [hbp, Option.some.injEq] at hm
+        have := collateX_of_buildParts fl (arrival.map fun i => (r, treesOf (finalP true nw (workerFiles burnin files).length choices) (workerFiles burnin files) i)) ws (TA.new r fl) hbp
+        simp only [List.map_map] at this
+        simp only [postedBy]
+        rw [← hm]
+        exact congrArg some this
+    · cases hm
+  · simp only [runSerialB, ← hb2]
+    exact hs
+
 /-! ### non-vacuity: the hypotheses are satisfiable and the statements say something on a concrete sample -/
 
 section Examples
@@ -2092,6 +2417,26 @@ example : ((run [] exNested).1.map (·.rooting)) = [some false, some false, none
 example : ((run [] exSerial).1[0]?.map (fun a => ((a.sd.meanLen 6).map (·.render), (a.sd.meanLen 10).map (·.render), a.sd.summarySizes 6)),
     (run [] exNested).1[4]?.map (fun a => ((a.sd.meanLen 6).map (·.render), (a.sd.meanLen 10).map (·.render), a.sd.summarySizes 6))) =
     (some (some "1/2", some "1", (2, 0)), some (some "1/2", some "1", (2, 0))) := by decide
+/-- `burnin_per_source`: three sources, the middle one empty, burn-in 1: the first tree of each non-empty source is lost -/
+example : (readFiles 1 [[exT1, exT2], [], [exT2, exT1, exT1]]).map (·.weight) = [some ⟨3, 2⟩, none, none] := by decide
+/-- `sumtrees_burnin_schedule_independent`: its hypotheses hold for 3 workers, 2 files, burn-in 1 and an idle worker arriving
+    first; the parallel run (failing-read protocol, re-raising collation) and the serial run both count the three trees kept;
+    and with no file at all both return the empty summary -/
+example : (0 < 3 ∧ [2, 0, 1].Perm (List.range 3)) ∧
+    (match runAsyncFB 1 none exFl 3 [1, 0, 2, 1] [2, 0, 1] [[exT1, exT2], [exT2, exT1, exT1]] with | some (.ok m) => some m.sd.total | _ => none) = some 3 ∧
+    (match runSerialB 1 none exFl [[exT1, exT2], [exT2, exT1, exT1]] with | .ok m => some m.sd.total | _ => none) = some 3 ∧
+    (match runAsyncFB 0 none exFl 2 [] [1, 0] [] with | some (.ok m) => some m.sd.total | _ => none) = some 0 := by
+  refine ⟨⟨by decide, by decide⟩, by decide, by decide, by decide⟩
+/-- `sumtrees_failing_read_reported` / `async_failures_never_hang`: file 1 holds an unrooted and a rooted tree; the worker that
+    reads it (worker 0, after file 0) posts MixedRooting and stops without taking its marker, worker 1 still stops; the parent
+    re-raises.  With one rooted and one unrooted *file* read by different workers both post arrays and the parent's second
+    `update` is rejected (IncRooting); the serial run over the same files raises MixedRooting: all three runs fail. -/
+example : let rT : TRec := { exT1 with rooted := some true }
+    ((finalPF (failsOf none exFl [[exT1], [exT1, rT]]) 2 2 []).ws.map (fun w => (w.phase == Phase.done, w.taken)),
+     (match runAsyncF none exFl 2 [] [1, 0] [[exT1], [exT1, rT]] with | some (.error e) => some e | _ => none),
+     (match runAsyncF none exFl 2 [0, 0, 0, 0, 1, 2, 1, 2, 1, 1] [1, 0] [[exT1], [rT]] with | some (.error e) => some e | _ => none),
+     (match runSerial none exFl [[exT1], [rT]] with | .error e => some e | _ => none)) =
+    ([(true, [0, 1]), (true, [])], some Err.mixedRooting, some Err.incRooting, some Err.mixedRooting) := by decide
 end Examples
 
 end DendroModel.C06
